@@ -213,6 +213,8 @@ def theorems_of(prop_id):
         name = m.group(2)
         if m.group(1) == "Example":
             kind = "example(non-vacuity)"
+        elif "_historical_" in name:
+            kind = "historical(about the code before a fix: commit, not about /repo)"
         elif name.endswith("_refuted") or "_refuted_" in name:
             kind = "refuted(witness)"
         elif name.endswith("_partial") or "_partial_" in name:
